@@ -9,18 +9,22 @@
 (*            handed; same = it is the channel's current pipe                            *)
 EXTENDS Naturals, Sequences, TLC, Json, IOUtils, TLCExt
 Batch == JsonDeserialize(IOEnv.TRACE_FILE)
-VARIABLES tid, l, out, err, bad
-tvars == <<tid, l, out, err, bad>>
+VARIABLES tid, l, out, err, bad, comb
+tvars == <<tid, l, out, err, bad, comb>>
 T == Batch[tid]
 N == Len(T.events)
-TInit == tid \in 1..Len(Batch) /\ l = 1 /\ bad = {} /\ out = Batch[tid].init[1] /\ err = Batch[tid].init[2]
+TInit == tid \in 1..Len(Batch) /\ l = 1 /\ bad = {} /\ out = Batch[tid].init[1] /\ err = Batch[tid].init[2] /\ comb = FALSE
 HasData == out > 0 \/ err > 0
+\*   further events: "cmb" = set_combine_stderr(True) returned (stderr bytes moved behind stdout; later stderr data goes to
+\*   stdout), "r1" = a non-blocking recv() that returned n bytes
 Step == /\ l <= N /\ l' = l + 1 /\ UNCHANGED <<tid, bad>>
         /\ LET e == T.events[l] IN
-             CASE e.op = "f1" -> out' = out + e.n /\ UNCHANGED err
-               [] OTHER      -> err' = err + e.n /\ UNCHANGED out
+             CASE e.op = "f1"  -> out' = out + e.n /\ UNCHANGED <<err, comb>>
+               [] e.op = "f2"  -> IF comb THEN out' = out + e.n /\ UNCHANGED <<err, comb>> ELSE err' = err + e.n /\ UNCHANGED <<out, comb>>
+               [] e.op = "cmb" -> out' = out + err /\ err' = 0 /\ comb' = TRUE
+               [] OTHER        -> out' = out - e.n /\ UNCHANGED <<err, comb>>
 Observe ==
-  /\ l = N + 1 /\ l' = l + 1 /\ UNCHANGED <<tid, out, err>>
+  /\ l = N + 1 /\ l' = l + 1 /\ UNCHANGED <<tid, out, err, comb>>
   /\ bad' = IF ~T.quiescent THEN {"C_not_quiescent"}
             ELSE (IF T.obs.out = out /\ T.obs.err = err THEN {} ELSE {"C_buffer_accounting"})
                  \cup (IF \E k \in 1..Len(T.obs.fds) : ~T.obs.fds[k].same THEN {"C_descriptors_differ"} ELSE {})
